@@ -102,6 +102,10 @@ def main(tier):
         run.ob(not ans_made, "ans-token-source|%s" % ev, "C14 only the tokenizer's `@` rule produces the placeholder token", ev, "constructed in %s" % ans_made[:3])
         run.ob(True, "field-write-census|%s" % ev, "C14", ev, sample={"evaluator": ev, "writes_to_placeholder_field": nwrites})
         # behaves like a constant: category DefaultZero, not an implicit-product trigger (C12 shows the trigger set)
+        from .c12 import implicit_trigger
+        trig = implicit_trigger(m)
+        run.ob(trig is not None and tv not in trig, "not-a-factor|%s" % ev, "C14 `@` never starts an implicit product (`2@`, `(1)@` are rejected, like the constants)", where(m, "::parser::Parser::implicit_multiply"),
+               "trigger set %s" % (sorted(trig) if trig is not None else "UNRECOGNISED"), sample={"evaluator": ev, "implicit_product_triggers": sorted(trig) if trig else None})
         run.ob(m.tb.category_of(tv) == "DefaultZero", "category|%s" % ev, "C14 `@` has the loosest category (it never continues an expression)", where(m, "::token::Token::get_oper_prec"), str(m.tb.category_of(tv)))
     report_issues(run, models, tables={"T_prim", "T_lex", "T_eval"})
     run.floor("evaluators analysed", len(models), 5)
